@@ -1047,6 +1047,12 @@ TRANSLATOR_MODULES.append("rs2lean_genavl")
 GEN_SRC.update({n: gen_src(n) for n in ("SrcAvl",)})
 EXTRACTORS["C07"] = EXTRACTORS["C07"] + [GEN_SRC["SrcAvl"]]
 
+# genalign: the pairwise aligner (C01; the traceback cell / matrix part also C02) — dialect "align" of tools/rs2lean_genalign.py;
+# Thm/C01.lean imports RbV.Thm.GenSrcPw* and restates the theorems
+TRANSLATOR_MODULES.append("rs2lean_genalign")
+GEN_SRC.update({n: gen_src(n) for n in ("SrcPwTypes", "SrcPwModes", "SrcPwCustom")})
+EXTRACTORS["C01"] = EXTRACTORS["C01"] + [GEN_SRC[n] for n in ("SrcPwTypes", "SrcPwModes", "SrcPwCustom")]
+
 
 def main():
     ap = argparse.ArgumentParser()
